@@ -356,6 +356,62 @@ func (g *seqGen) memoHunt(rounds int) {
 		} {
 			g.add(op)
 		}
+		g.failThenSucceed(l, l2, ent, w, own, wide, k)
+	}
+}
+
+// failThenSucceed appends (failing call, succeeding call) pairs: every way a call can fail
+// directly followed by every kind of call that succeeds. State that an error path forgets
+// to clean (pooled buffers, accumulators, digests) is picked up by the very next call.
+// Each round takes a seeded half of the matrix.
+func (g *seqGen) failThenSucceed(l, l2 int, ent []byte, w []string, own, wide string, k int) {
+	r, m := g.r, g.e.Model
+	s := strings.Join(w, " ")
+	unk := func(pos int, sep string) string {
+		c := append([]string(nil), w...)
+		c[pos] = "qzv" + itoa(k)
+		return strings.Join(c, sep)
+	}
+	bad := append([]string(nil), w...)
+	bad[len(bad)-1] = m.List[l][m.Index[l][bad[len(bad)-1]]^1]
+	need := len(ent)
+	failing := []plan.Op{
+		{Fn: "chk", L: int64(l), S: hxs(s + " " + w[0])},
+		{Fn: "chk", L: int64(l), S: hxs(wide + "\u3000" + w[0])},
+		{Fn: "val", L: int64(l), S: hxs(strings.Join(w[1:], " "))},
+		{Fn: "chk", L: int64(l), S: hxs(unk(0, " "))},
+		{Fn: "chk", L: int64(l), S: hxs(unk(len(w)/2, " "))},
+		{Fn: "chk", L: int64(l), S: hxs(unk(len(w)-1, "\u3000"))},
+		{Fn: "chk", L: int64(l), S: hxs(strings.Join(bad, " "))},
+		{Fn: "val", L: int64(l), S: hxs(strings.Join(bad, "\u3000"))},
+		{Fn: "chk", L: int64(l2), S: hxs(s)},
+		{Fn: "enc", L: int64(l), E: hx(ent[:need-1])},
+		{Fn: "enc", L: int64(l), E: hx(append(append([]byte(nil), ent...), 7))},
+		{Fn: "enc", L: int64(l), ENil: true},
+		{Fn: "new", L: int64(l), N: int64(len(w) + 1), Src: &plan.Src{Data: hx(ent)}},
+		{Fn: "new", L: int64(l), N: int64(len(w)), Src: &plan.Src{Data: ""}},
+		{Fn: "new", L: int64(l), N: int64(len(w)), Src: &plan.Src{Data: hx(ent), Steps: []plan.Step{{N: 1 + k%(need-1)}, {N: 0, E: "custom"}}}},
+		{Fn: "new", L: int64(l), N: int64(len(w)), Src: &plan.Src{Data: hx(ent[:need-1])}},
+		{Fn: "enc", L: int64(40 + k), E: hx(ent)},
+		{Fn: "chk", L: int64(-9 - k), S: hxs(s)},
+	}
+	succeeding := []plan.Op{
+		{Fn: "chk", L: int64(l), S: hxs(s)},
+		{Fn: "val", L: int64(l), S: hxs(wide)},
+		{Fn: "enc", L: int64(l), E: hx(ent), Keep: true},
+		{Fn: "new", L: int64(l), N: int64(len(w)), Src: &plan.Src{Data: hx(ent)}, Keep: true},
+		{Fn: "seed", S: hxs(own), P: hxs("p"), Keep: true},
+		{Fn: "seed", S: hxs(wide), P: hxs("\uff50\u00e9"), Keep: true},
+		{Fn: "str", L: int64(l)},
+		{Fn: "chk", L: int64(l2), S: hxs(m.Enc(ent, l2))},
+	}
+	for _, f := range failing {
+		for _, ok := range succeeding {
+			if r.Intn(2) == 0 {
+				g.add(f)
+				g.add(ok)
+			}
+		}
 	}
 }
 
